@@ -51,6 +51,15 @@ def rules(ctx):
             ins = [c for c in fd.body.calls() if c.callee and c.callee.endswith("HashMap::insert")]
             ok = any(slice_has_call_def(fd.slice_operand_pure(c, c.args[2]), T("replace_end_depot")) for c in ins if len(c.args) == 3)
             ctx.decide(o4, ok, "tours.insert(vehicle, replace_end_depot(..))", "the result of replace_end_depot is not inserted into the tours")
+    o, fd = ctx.require_fn("R1.alignment-keeps-its-cycles", "T1", REASSIGN,
+                           "the alignment updates the stored cycles' counters and never rebuilds the cycles it has just aligned the end depots to")
+    if fd is not None:
+        upd = calls_to(fd, S("update_transitions_and_violation_fast"))
+        rec = calls_to(fd, S("recompute_transitions_and_violation_fast")) + calls_to(fd, TR("new_fast"))
+        ctx.decide(o, bool(upd) and not rec, "update_transitions_and_violation_fast only",
+                   "the cycles are rebuilt from scratch (%s) after the end depots were aligned to the stored cycles: the reported cycles are no longer "
+                   "the ones each vehicle's end depot matches" % (rec[0].callee.split("::")[-1] if rec else "no update call"),
+                   loc=rec[0].line() if rec else None)
     for fn in ("replace_end_depot", "replace_start_depot"):
         o, fd = ctx.require_fn("R1.%s-always-rebuilds" % fn, "T1", T(fn),
                                "%s returns Ok only with a tour freshly built by new_precomputed (no shortcut returning self)" % fn)
